@@ -9,6 +9,19 @@ TRUSTED = [
 ]
 
 
+def mc_job(run, name, module, cfg, what, workers=None, timeout=3000, extra=None):
+    """a design-level model-checking job (no consumer); any invariant/property violation is a model-level finding"""
+    res = run_tlc(name, module, cfg, env=run.known_env(), timeout=timeout, workers=workers, extra=(extra or []) + ["-coverage", "1"], expect_violation=True)
+    run.add_tlc(name, res, what)
+    never = sorted(k for k, v in res.coverage.items() if v[1] == 0)
+    if never:
+        run.cov["jobs"][name]["actions_never_taken"] = never
+        raise ToolError("vacuity: action(s) never taken in %s: %s" % (name, never))
+    if res.invariant_violated:
+        run.violation(name, {"model_level": True, "violated": res.invariant_violated, "tlc": res.error[:3000]})
+    return res
+
+
 def c04(run):
     run.assumptions += TRUSTED + ["rule texts are printed from the vector by harness/src/c04.rs::rule_text (3 fixed shapes)"]
     cfg = "gen/GEN_C04_%s.cfg" % run.tier
@@ -44,7 +57,27 @@ def c05(run):
                        "non-trivial = the expected word differs from the input or an error is expected")
 
 
+def c03(run):
+    run.assumptions += TRUSTED + ["rule texts are printed from the AST by harness/src/rules.rs"]
+    what = {"A": "no exception, context sides <= 2, words <= 4 segments in every syllabification",
+            "B": "context and exception sides <= 1, words <= 4", "C": "two-member environment sets, sides <= 1, words <= 4",
+            "D": "random sample of the full bound: context and exception sides <= 2 each, random words <= 6 segments"}
+    mc_job(run, "MC_Scan", "mc/MC_Scan.tla", "mc/MC_Scan%s.cfg" % ("_thorough" if run.tier == "thorough" else ""),
+           "M: the interpreter as an explicit state machine (FindMatch/EnvReject/Transform/Finish) refines Scan!RunScan; WordOK, cursor progress, termination, "
+           "prosodic tier kept, no-match stutter; exhaustive over a small rule pool x all words <= %d segments" % (3 if run.tier == "thorough" else 2))
+    for name in ["A", "B", "C", "D"]:
+        cfg = "gen/GEN_C03_%s_%s.cfg" % (name, run.tier)
+        res = run_tlc("GEN_C03_" + name, "gen/GEN_C03.tla", cfg, env=run.known_env(), consumer=[HARNESS, "replay", "C03"], timeout=6000,
+                      extra=["-seed", run.seed])
+        run.add_tlc("GEN_C03_" + name, res, "S->I: Scan!RunScan (reference interpreter) on stratum %s (%s); the harness compares the structural result and the "
+                    "per-iteration (position found, environment verdict) sequence recorded by the hooks in SubRule::apply" % (name, what[name]))
+    run.cov["rule"] = ("rules of the basic fragment over inventory {a,t,i}: 8 inputs (IPA, [+syll], [-syll], [], C, two sets) x 5 outputs (IPA or feature matrix) x environments over "
+                       "{a, t, [+syll], C, {a,t}, $, #}; strata sampled by rule index % Stride = seed % Stride (quick) or densely (thorough); words: all segment strings in all syllabifications "
+                       "without in-syllable runs at any stage; non-trivial = the rule rewrites at least one segment")
+
+
 PROPS = {
+    "C03": (c03, "model_checking"),
     "C05": (c05, "model_checking"),
     "C18": (c18, "model_checking"),
     "C04": (c04, "model_checking"),
